@@ -112,7 +112,7 @@ PROPS['C13'] = dict(
           'documents x 6 capacities + NULL. Destination is a heap block of exactly `capacity` bytes. Non-trivial iff 0 < capacity < need on a valid '
           'document (the text is cut), or the document is invalid; distinct = hash(document, capacity).'),
     tiers=dict(
-        quick=[enum(shards=2, variant='san', env={'VH_ENUM_N': '5'}), rc(10000, shards=7, max_size=250, corpus=CORPUS), fuzz(10000, shards=7, max_len=256, corpus=CORPUS)],
+        quick=[enum(shards=2, variant='san', env={'VH_ENUM_N': '5'}), rc(7000, shards=7, max_size=250, corpus=CORPUS), fuzz(10000, shards=7, max_len=256, corpus=CORPUS)],
         thorough=[enum(shards=4, variant='san', env={'VH_ENUM_N': '7'}), rc(300000, shards=4, max_size=500, corpus=CORPUS),
                   fuzz(120000, shards=12, max_len=1024, corpus=CORPUS)],
     ),
